@@ -582,8 +582,13 @@ class simplify_chained_calls(FuncADLNodeTransformer):
 
     def visit_Subscript_Dict_with_value(self, v: ast.Dict, s: Union[str, int]):
         "Do the lookup for the dict. Returns None if the dict does not define the key."
-        for index, value in enumerate(v.keys):
-            if isinstance(value, ast.Constant) and value.value == s:
+        # A key that is written more than once has the last value, as in python
+        for index in reversed(range(len(v.keys))):
+            key = v.keys[index]
+            if key is None:
+                # `**other` - it may define the key as well
+                return None
+            if isinstance(key, ast.Constant) and key.value == s:
                 return copy.deepcopy(v.values[index])
 
         return None
